@@ -49,6 +49,7 @@ func ProcShapes() []ProcShape {
 		{Name: "pipe-consumer-with-children", Lines: []string{`echo x | MARK bash -c 'cat >/dev/null; sleep 300 & sleep 301; wait'`}, Leaves: 2},
 		{Name: "heredoc-stdin-with-children", Lines: []string{"MARK bash -c 'cat >/dev/null; sleep 300 & wait' <<EOT\nline\nEOT"}, Leaves: 1},
 		{Name: "ignore-int-last-allow-failure", Lines: []string{`MARK bash -c 'trap "" INT; sleep 300'`}, Leaves: 1, AllowFailure: true},
+		{Name: "leader-exited-child-detached", Lines: []string{`MARK sh -c 'sleep 300 >/dev/null 2>&1 </dev/null &'`, "MARK sleep 301"}, Leaves: 2},
 		{Name: "leader-dies-ignorer-detached-from-pipes", Lines: []string{`MARK bash -c '(trap "" INT; exec sleep 300) >/dev/null 2>&1 </dev/null & wait'`}, Leaves: 1, DetachedIgnorer: true},
 		{Name: "interp-background-ignores-int", Lines: []string{`MARK bash -c 'trap "" INT; exec sleep 300' &`, "MARK sleep 301"}, Leaves: 2, DetachedIgnorer: true},
 	}
@@ -148,7 +149,7 @@ func RunProcCase(seed int64, o ProcOpts) *HistResult {
 	specs := []gen.PipeSpec{{Name: "target", Def: mkDef(shape), Graph: gen.Graph{Names: []string{"tree"}, Deps: map[string][]string{}}}}
 	otherShapes := []ProcShape{}
 	for i := 0; i < o.Others; i++ {
-		sh := shapes[r.Intn(len(shapes)-6)] // not the detached / stdin ones
+		sh := shapes[r.Intn(len(shapes)-7)] // not the detached / stdin ones
 		otherShapes = append(otherShapes, sh)
 		specs = append(specs, gen.PipeSpec{Name: fmt.Sprintf("other%d", i), Def: mkDef(sh), Graph: gen.Graph{Names: []string{"tree"}, Deps: map[string][]string{}}})
 	}
